@@ -9,6 +9,8 @@ import Ts.Spec.Protocol
   exactly the events of its own PID's unflagged packets (`esAll` over `PesFilter.run`);
 * `retired_silent`: a tag that has been handed out and is no longer in the table is never
   re-issued and never emits again;
+* `esAll_eq_rel`: the events of a consumer are packet-relative events (`esAllRel`, a function of the
+  bytes only) moved to each packet's stream offset (`placeAt`, `shiftEv`);
 * `NestInv`: for EVERY tag the projected elementary-stream callbacks are accepted by the protocol
   acceptor of C08 from `notStarted`, ending in the abstraction of the filter state if the handler
   is still installed.
@@ -17,7 +19,6 @@ namespace Ts.Lemmas.Proj
 open Ts Ts.Demux Ts.App Ts.Spec.Protocol
 open Ts.Lemmas.C19 (R.bind_eq_ok R.ok_inj)
 open Ts.Lemmas.C08 (stepOf runPure)
-open Ts.Lemmas.C02 (QueuesNothingFor)
 
 /-! ### projection -/
 
@@ -232,51 +233,6 @@ theorem pushSpec_view (p τ : Nat) : ∀ (xs : List Pk) (t : Tab Handler) (c : C
       · rw [ho]; exact a2
       · rw [a5, ho1, List.append_assoc]
       · rw [List.reverse_append, List.filter_append, hnone, List.nil_append, a6]
-
-/-- the hypotheses of C02's `not_attributed_to_other_pid` imply `Keeps` -/
-theorem keeps_of_queuesNothing (p τ : Nat) : ∀ (xs : List Pk) (t : Tab Handler) (c : Ctx)
-    (f : PesFilter.F), t.get p = some (.pes τ f) →
-    (∀ pk ∈ xs, pk.pid = p → pk.bytes.length = 188) →
-    (∀ pk ∈ xs, pk.pid ≠ p → QueuesNothingFor App.sem p pk) →
-    Keeps p τ (t, c) xs = true := by
-  intro xs
-  induction xs with
-  | nil => intro t c f _ _ _; rfl
-  | cons pk xs ih =>
-    intro t c f hg h188 hN
-    have h188' : ∀ q ∈ xs, q.pid = p → q.bytes.length = 188 :=
-      fun q hq => h188 q (List.mem_cons_of_mem _ hq)
-    have hN' : ∀ q ∈ xs, q.pid ≠ p → QueuesNothingFor App.sem p q :=
-      fun q hq => hN q (List.mem_cons_of_mem _ hq)
-    unfold Keeps
-    cases hstep : specStep App.sem (t, c) pk with
-    | panic s => rfl
-    | ok r =>
-      obtain ⟨t1, c1⟩ := r
-      dsimp only
-      have key : ∃ f1, t1.get p = some (.pes τ f1) := by
-        by_cases hp : pk.pid = p
-        · cases hf : pk.flagged with
-          | true =>
-            have hc : t.contains pk.pid = true := (Tab.contains_eq_true_iff _ _).2 ⟨_, hp ▸ hg⟩
-            rw [specStep_flagged_of_contains App.sem t c pk hc hf] at hstep
-            have := R.ok_inj hstep
-            simp only [Prod.mk.injEq] at this
-            rw [← this.1]; exact ⟨f, hg⟩
-          | false =>
-            have hb := h188 pk List.mem_cons_self hp
-            rw [C02.specStep_pes t c pk τ f (hp ▸ hg) hf hb] at hstep
-            obtain ⟨c2, _, hstep⟩ := R.bind_eq_ok hstep
-            have := R.ok_inj hstep
-            simp only [Prod.mk.injEq] at this
-            rw [← this.1, hp]; exact ⟨_, Tab.get_insert_self _ _ _⟩
-        · refine ⟨f, ?_⟩
-          rw [C02.specStep_frame App.sem t c pk t1 c1 p hp hstep
-            (fun _ _ h h' c2 chg _ _ hk => hN pk List.mem_cons_self hp h _ h' c2 chg hk)]
-          exact hg
-      obtain ⟨f1, hf1⟩ := key
-      rw [(holdsPes_iff t1 p τ).2 ⟨f1, hf1⟩, ih t1 c1 f1 hf1 h188' hN']
-      rfl
 
 /-- every event of `esAll` lies in the packet that caused it (C19's `EvInPacket`) -/
 theorem esAll_inPacket (touch : Bool) (tag : Nat) : ∀ (pks : List Pk) (fs : PesFilter.F)
@@ -727,6 +683,153 @@ theorem esEvList_first (touch : Bool) (pk : PesPkt) (hw : pk.WF) (p : Bytes) (ba
       rw [ht]
       cases st <;> rfl
     rw [← List.reverse_reverse lst, this, List.reverse_reverse]
+
+/-! ### stream offsets: every event of a packet is the packet-relative event moved to the packet's offset -/
+
+/-- move the stream offsets an event carries by `d` bytes -/
+def shiftBi (d : Nat) (bi : BeginInfo) : BeginInfo :=
+  { bi with pl := bi.pl.map (fun r => (d + r.1, r.2)) }
+
+def shiftEv (d : Nat) : Ev → Ev
+  | .esBegin tag bi => .esBegin tag (shiftBi d bi)
+  | .esCont tag off len => .esCont tag (d + off) len
+  | .pkt tag off => .pkt tag (d + off)
+  | e => e
+
+theorem beginInfo_base (p : Bytes) (base o l : Nat) :
+    beginInfo p base o l = (beginInfo p 0 o l >>= fun bi => R.ok (shiftBi base bi)) := by
+  unfold beginInfo
+  dsimp only
+  cases Pes.streamId (Packet.rangeBytes p (o, l)) with
+  | panic s => rfl
+  | ok sid =>
+    simp only [R.ok_bind]
+    cases Pes.pesPacketLength (Packet.rangeBytes p (o, l)) with
+    | panic s => rfl
+    | ok len =>
+      simp only [R.ok_bind]
+      cases Pes.contents (Packet.rangeBytes p (o, l)) with
+      | panic s => rfl
+      | ok ct =>
+        simp only [R.ok_bind]
+        cases ct with
+        | payload rest =>
+          simp only [R.pure_eq, R.ok_bind, shiftBi, Option.map_some, Nat.zero_add, Nat.add_assoc]
+        | parsed oc =>
+          cases oc with
+          | none => rfl
+          | some cc =>
+            dsimp only
+            cases Pes.ptsDts cc with
+            | panic s => rfl
+            | ok pd =>
+              simp only [R.ok_bind]
+              cases Pes.payloadOffset cc with
+              | panic s => rfl
+              | ok po =>
+                simp only [R.pure_eq, R.ok_bind, shiftBi, Option.map_some, Nat.zero_add, Nat.add_assoc]
+
+theorem esEvList_base (touch : Bool) (tag : Nat) (p : Bytes) (base : Nat) :
+    ∀ (evs : List PesFilter.Ev), esEvList touch tag p base evs =
+      (esEvList touch tag p 0 evs >>= fun l => R.ok (l.map (shiftEv base))) := by
+  intro evs
+  induction evs with
+  | nil => rfl
+  | cons e es ih =>
+    have fin : ∀ (a : Ev), ((esEvList touch tag p base es >>= fun rest => (pure (shiftEv base a :: rest) : R (List Ev)))) =
+        ((esEvList touch tag p 0 es >>= fun rest => (pure (a :: rest) : R (List Ev))) >>= fun l =>
+          R.ok (l.map (shiftEv base))) := by
+      intro a
+      rw [ih]
+      cases esEvList touch tag p 0 es with
+      | panic s => rfl
+      | ok rest => rfl
+    cases e with
+    | start => exact fin (.esStart tag)
+    | endPkt => exact fin (.esEnd tag)
+    | ccErr => exact fin (.esCcErr tag)
+    | cont o l =>
+      have h0 : shiftEv base (.esCont tag (0 + o) l) = .esCont tag (base + o) l := by
+        simp only [shiftEv, Nat.zero_add]
+      have := fin (.esCont tag (0 + o) l)
+      rw [h0] at this
+      exact this
+    | beginPkt o l =>
+      unfold esEvList
+      dsimp only
+      rw [beginInfo_base]
+      cases hb : beginInfo p 0 o l with
+      | panic s => rfl
+      | ok bi =>
+        simp only [R.ok_bind]
+        cases touch with
+        | false => exact fin (.esBegin tag bi)
+        | true =>
+          simp only [if_true]
+          cases ht : touchPesHeader (Packet.rangeBytes p (o, l)) with
+          | panic s => rfl
+          | ok u => exact fin (.esBegin tag bi)
+
+/-- `esAll` with every packet taken at stream offset 0: the PACKET-RELATIVE events, a function of
+the packets' bytes and the filter callbacks only -/
+def esAllRel (touch : Bool) (tag : Nat) : List Bytes → List (List PesFilter.Ev) → R (List (List Ev))
+  | b :: bs, evs :: evss => do
+    let a ← esEvList touch tag b 0 evs
+    let rest ← esAllRel touch tag bs evss
+    pure (a :: rest)
+  | _, _ => .ok []
+
+/-- shift the `k`-th list of packet-relative events by the `k`-th packet's stream offset -/
+def placeAt (pks : List Pk) (rel : List (List Ev)) : List (List Ev) :=
+  List.zipWith (fun pk l => l.map (shiftEv pk.off)) pks rel
+
+/-- `esAll` = the packet-relative events, each packet's moved to that packet's stream offset -/
+theorem esAll_eq_rel (touch : Bool) (tag : Nat) : ∀ (pks : List Pk) (evss : List (List PesFilter.Ev)),
+    esAll touch tag pks evss =
+      (esAllRel touch tag (pks.map (·.bytes)) evss >>= fun rel => R.ok (placeAt pks rel)) := by
+  intro pks
+  induction pks with
+  | nil => intro evss; rfl
+  | cons pk pks ih =>
+    intro evss
+    cases evss with
+    | nil => rfl
+    | cons evs evss =>
+      simp only [esAll_cons, List.map_cons, esAllRel]
+      rw [esEvList_base, ih evss]
+      cases esEvList touch tag pk.bytes 0 evs with
+      | panic s => rfl
+      | ok a =>
+        simp only [R.ok_bind]
+        cases esAllRel touch tag (pks.map (·.bytes)) evss with
+        | panic s => rfl
+        | ok rest => rfl
+
+theorem esShape_shiftEv (d : Nat) (e : Ev) : esShape (shiftEv d e) = esShape e := by
+  cases e <;> rfl
+
+/-- with arguments erased, the events of `esAll` over a packet list and the filter callbacks of
+that very list are the filter callbacks with arguments erased -/
+theorem esAll_shape (touch : Bool) (tag : Nat) : ∀ (pks : List Pk) (fs : PesFilter.F)
+    (outs : List (List Ev)),
+    esAll touch tag pks (runPure fs (pks.map (·.bytes))).2 = .ok outs →
+    outs.flatten.filterMap esShape = ((runPure fs (pks.map (·.bytes))).2.flatten).map norm := by
+  intro pks
+  induction pks with
+  | nil =>
+    intro fs outs h
+    have : outs = [] := (R.ok_inj h).symm
+    subst this
+    rfl
+  | cons pk pks ih =>
+    intro fs outs h
+    simp only [List.map_cons, runPure, esAll_cons] at h ⊢
+    obtain ⟨a, ha, h⟩ := R.bind_eq_ok h
+    obtain ⟨rest, hrest, h⟩ := R.bind_eq_ok h
+    have := R.ok_inj h
+    subst this
+    rw [List.flatten_cons, List.filterMap_append, List.flatten_cons, List.map_append,
+      esEvList_shape _ _ _ _ _ _ ha, ih _ rest hrest]
 
 /-! ### concrete data for the non-vacuity examples -/
 
